@@ -871,6 +871,10 @@ struct Adv {
     history: Vec<String>,
     answers: BTreeMap<String, u64>,
     refused: u64,
+    /// commitment seed of another channel of the same node
+    other_cseed: [u8; 32],
+    /// (number, suggested secret, answer, what the suggestion was) of the CheckFutureSecret route
+    future: Vec<(u64, [u8; 32], bool, &'static str)>,
 }
 
 impl Adv {
@@ -1093,6 +1097,78 @@ impl Adv {
         self.node = self.world.restart(&self.node_id);
         self.handler = make_handler(&self.node, self.proto, self.peer, self.dbid);
     }
+
+    /// CheckFutureSecret over the wire: encoded, decoded, handled by the ChannelHandler, and the
+    /// reply decoded again
+    fn wire_check_future(&self, n: u64, s: &[u8; 32]) -> Option<bool> {
+        let bytes = msgs::CheckFutureSecret { commitment_number: n, secret: model::DisclosedSecret(*s) }.as_vec();
+        let msg = msgs::from_vec(bytes).ok()?;
+        if !matches!(msg, Message::CheckFutureSecret(_)) {
+            return None;
+        }
+        let r = catch_unwind(AssertUnwindSafe(|| self.handler.handle(msg).map(|r| r.as_vec())));
+        match r {
+            Ok(Ok(reply)) => match msgs::from_vec(reply) {
+                Ok(Message::CheckFutureSecretReply(rep)) => Some(rep.result),
+                _ => None,
+            },
+            _ => None,
+        }
+    }
+
+    /// the CheckFutureSecret route at the current state: for n in {0, 1, 2, small, large, 2^48-1
+    /// boundary} the channel's secret of n, of n-1, of n+1, the secret another channel has at n, and
+    /// random bytes; the answer must be "true" exactly for the channel's own secret of the number asked
+    fn probe_future(&mut self, rng: &mut Rng) {
+        self.history.push(format!("check-future-secret@next={}", self.next()));
+        let ns: Vec<u64> = vec![
+            0, 1, 2, 3 + rng.below(20), 1 << 47, rng.below(1 << 48).min(INITIAL - 2), INITIAL - 1, INITIAL,
+        ];
+        for n in ns {
+            let mut cands: Vec<([u8; 32], &'static str)> = vec![(self.exp_secret(n).unwrap(), "secret(n)")];
+            if n >= 1 {
+                cands.push((self.exp_secret(n - 1).unwrap(), "secret(n-1)"));
+            }
+            if n < INITIAL {
+                cands.push((self.exp_secret(n + 1).unwrap(), "secret(n+1)"));
+            }
+            cands.push((build_commitment_secret(&self.other_cseed, INITIAL - n), "secret(n) of another channel"));
+            cands.push((rng.bytes32(), "random bytes"));
+            for (s, what) in cands {
+                let expected = Some(s) == self.exp_secret(n);
+                let got = match self.wire_check_future(n, &s) {
+                    Some(b) => b,
+                    None => {
+                        self.refused += 1;
+                        continue;
+                    }
+                };
+                *self.answers.entry("CheckFutureSecretReply:bool".into()).or_insert(0) += 1;
+                if got != expected {
+                    self.violations.push(json!({
+                        "what": format!("CheckFutureSecret answers {} for {} at commitment number n: the route does not test the channel's own BOLT-3 secret of the number asked", got, what),
+                        "n": n.to_string(), "suggested": hexs(&s), "expected": expected, "next_holder_commit_num": self.next(),
+                        "history": self.history.clone()}));
+                }
+                // the trait method behind the route, asked directly
+                let node = self.node.clone();
+                let id = self.id.clone();
+                let sk = SecretKey::from_slice(&s);
+                if let Ok(sk) = sk {
+                    let d = catch_unwind(AssertUnwindSafe(|| node.with_channel_base(&id, |b| b.check_future_secret(n, &sk))));
+                    if let Ok(Ok(b)) = d {
+                        *self.answers.entry("check_future_secret:bool".into()).or_insert(0) += 1;
+                        if b != expected {
+                            self.violations.push(json!({
+                                "what": format!("check_future_secret answers {} for {} at commitment number n", b, what),
+                                "n": n.to_string(), "suggested": hexs(&s), "expected": expected, "history": self.history.clone()}));
+                        }
+                    }
+                }
+                self.future.push((n, s, got, what));
+            }
+        }
+    }
 }
 
 fn adv(args: &Args) {
@@ -1126,10 +1202,21 @@ fn adv(args: &Args) {
             }
         };
         let handler = make_handler(&node, proto, peer, dbid);
+        let other_cseed = {
+            let (oid, _) = node.new_channel(dbid.wrapping_add(1).max(1), &peer, &node).expect("other channel");
+            let slot = node.get_channel(&oid).unwrap();
+            let g = slot.lock().unwrap();
+            match &*g {
+                ChannelSlot::Stub(st) => st.keys.commitment_seed,
+                ChannelSlot::Ready(c) => c.keys.commitment_seed,
+            }
+        };
         let mut a = Adv {
             world, node, node_id, id: id.clone(), peer, dbid, proto, handler, cctx, cseed, secp,
             secrets: BTreeMap::new(), violations: vec![], history: vec![], answers: BTreeMap::new(), refused: 0,
+            other_cseed, future: vec![],
         };
+        a.probe_future(&mut rng);
         let steps = 4 + rng.below(4);
         for n in 0..steps {
             if !a.validate(n, "") {
@@ -1145,10 +1232,14 @@ fn adv(args: &Args) {
             if n >= 2 || rng.chance(1, 2) {
                 a.probe(&mut rng);
             }
+            if rng.chance(1, 3) {
+                a.probe_future(&mut rng);
+            }
         }
         a.restart();
         n_restart += 1;
         a.probe(&mut rng);
+        a.probe_future(&mut rng);
         max_next = max_next.max(a.next());
         n_replays += a.history.iter().filter(|h| h.starts_with("replay-")).count() as u64;
         n_refused += a.refused;
@@ -1207,6 +1298,31 @@ fn adv(args: &Args) {
                    "next_holder_commit_num": a.next(), "history": a.history, "asked_secret_numbers": a.secrets.keys().collect::<Vec<_>>(),
                    "secret_numbers_in_coq": pick, "answers": a.answers, "refused_or_out_of_range": a.refused,
                    "has_secrets": !a.secrets.is_empty(), "monitor_violations": a.violations, "coq": coq}),
+        );
+        // the CheckFutureSecret answers for Coq (a sample of eight: the model recomputes the channel's
+        // seed from (node seed, id) and answers suggested = secret n); the last round of queries
+        // (after the final restart) first, one of every kind, small numbers and the boundary
+        let mut fsel: Vec<(u64, [u8; 32], bool, &'static str)> = vec![];
+        let wanted: [(u64, &str); 8] = [
+            (1, "secret(n)"), (1, "secret(n-1)"), (0, "secret(n)"), (INITIAL, "secret(n)"), (INITIAL, "secret(n-1)"),
+            (2, "secret(n+1)"), (1 << 47, "secret(n) of another channel"), (INITIAL - 1, "random bytes"),
+        ];
+        for (n, w) in wanted {
+            if let Some(q) = a.future.iter().rev().find(|q| q.0 == n && q.3 == w) {
+                fsel.push(*q);
+            }
+        }
+        let fq: Vec<String> = fsel.iter().map(|(n, s, b, _)| format!("({}, {}, {})", n, coq_bytes(s), coq_bool(*b))).collect();
+        let fcoq = format!(
+            "(({}, 0, {}, {}), {}, {})",
+            style_name(style), coq_bytes(&seed), coq_bytes(id.as_slice()), oracle, coq_list(&fq)
+        );
+        emit(
+            "FCASE",
+            json!({"kind": "future", "style": style_name(style), "proto": proto, "seed": hexs(&seed), "channel_id": hexs(id.as_slice()),
+                   "queries_total": a.future.len(), "answered_true": a.future.iter().filter(|q| q.2).count(),
+                   "queries_in_coq": fsel.iter().map(|(n, _, b, w)| json!([n.to_string(), w, b])).collect::<Vec<_>>(),
+                   "coq": fcoq}),
         );
     }
     emit(
